@@ -52,7 +52,7 @@ def stream_stats(S):
                 waits += 1
     return {"verdicts": dict(st), "threads_histogram": dict(sorted(threads.items())), "programs_with_cross_thread_waits": waits}
 
-def run_plan_property(prop, tier, seed, checks, nontrivial, describe, known_filter=None, needs_decl=False, extra_obligations=None):
+def run_plan_property(prop, tier, seed, checks, nontrivial, describe, known_filter=None, needs_decl=False, extra_obligations=None, e2e_checks=None):
     R = C.Result(prop, tier, seed)
     repo_dir = C.ensure_repo_build()
     lean_obligations(R, prop, repo_dir)
@@ -87,6 +87,30 @@ def run_plan_property(prop, tier, seed, checks, nontrivial, describe, known_filt
                      "reproduce": "echo '%s' > ops; VERIF_OPS=ops VERIF_OUT=out go test -tags verif -run TestVerifDriver ./internal/kessoku (in /repo); the dumped plan violates the condition above" % line})
     if extra_obligations:
         extra_obligations(R, S, repo_dir)
+    # end-to-end tie: the same property-level conditions on what the real CLI emits through the real parser
+    from . import p_e2e
+    try:
+        ES, ediffs = p_e2e.emission_obligation(R, tier, seed)
+        if ediffs and not R.violations:
+            for i, l, a, b in ediffs:
+                if not b.startswith("OK"):
+                    continue
+                try:
+                    EP = PC.parse_edump(b)
+                except ValueError:
+                    continue
+                ebad = e2e_checks(EP, G.parse_decl(l)) if e2e_checks else []
+                if ebad:
+                    R.violation("%s (end to end): %s  [declaration: %s]" % (describe, ebad[0], l),
+                                {"kind": "input", "failing_input": l, "emitted": b, "model": a, "violations": ebad[:5],
+                                 "reproduce": "render the declaration (vlib/render.py) and run `kessoku` on it; the emitted function has the structure shown"})
+                    break
+            if not R.violations:
+                i, l, a, b = ediffs[0]
+                R.violation("the emitted code differs from the model's emission on %d declarations; the property's conditions hold on every emitted function" % len(ediffs),
+                            {"kind": "correspondence-broken", "correspondence": "KV.planDumpE vs harness/extract of *_band.go", "case": l, "model": a, "impl": b})
+    finally:
+        p_e2e.close_streams()
     if diffs and not R.violations:
         i = diffs[0]
         R.violation("model and implementation plans differ on %d declarations but every implementation plan satisfies the property's structural conditions" % len(diffs),
@@ -124,7 +148,7 @@ def check_c05(tier, seed):
         "at least two input-free Async providers"
         return sum(1 for th in P["threads"] for c in th if c["isasync"] and not c["args"] and c["kind"] == "P") >= 2
     R = run_plan_property("C05", tier, seed, lambda P, d: PC.check_zero_async(P), nt,
-                          "input-free Async providers cannot all overlap")
+                          "input-free Async providers cannot all overlap", e2e_checks=e2e_zero_async)
     return R.finish("cd lean && lake build KV.Props.C05 && lake env lean <audit of Props/C05 theorems>", TRUSTED)
 
 def check_c02(tier, seed):
@@ -137,12 +161,32 @@ def check_c02(tier, seed):
                      "Set regrouping / declaration order / go/packages decoding are covered by the end-to-end stream, not by this in-process stream"]
     return R.finish("cd lean && lake build KV.Props.C02 && lake env lean <audit of Props/C02 theorems>", TRUSTED)
 
+def e2e_signature(EP, d):
+    return PC.check_signature(dict(args=EP["args"], err=EP["err"]), d[0], d[1])
+
+def e2e_zero_async(EP, d):
+    ret, provs = d
+    bad = []
+    def is_async(c):
+        import re as _re
+        m = _re.match(r"P(\d+)$", c["head"])
+        return bool(m and provs[int(m.group(1))]['a'])
+    for t, th in enumerate(EP["threads"]):
+        for i, c in enumerate(th):
+            if is_async(c) and not c["args"]:
+                for pc in th[:i]:
+                    if is_async(pc):
+                        bad.append("input-free Async provider %s is emitted after Async provider %s in the same thread %d" % (c["tok"], pc["tok"], t))
+                    elif pc["args"]:
+                        bad.append("input-free Async provider %s is emitted after %s, which has inputs" % (c["tok"], pc["tok"]))
+    return bad
+
 def check_c10(tier, seed):
     def nt(P):
         "at least one parameter"
         return len(P["args"]) >= 1
     R = run_plan_property("C10", tier, seed, lambda P, d: PC.check_signature(P, d[0], d[1]), nt,
-                          "the injector signature differs from the one the declaration determines", needs_decl=True)
+                          "the injector signature differs from the one the declaration determines", needs_decl=True, e2e_checks=e2e_signature)
     return R.finish("cd lean && lake build KV.Props.C10 && lake env lean <audit of Props/C10 theorems>", TRUSTED)
 
 def check_c09(tier, seed):
@@ -180,6 +224,63 @@ def check_c09(tier, seed):
                 R.violation("%s: %s  [declaration #%d: %s] implementation says: %s" % (what, d, i, S["lines"][i][2:], S["impl"][i]),
                             {"kind": "input", "failing_input": S["lines"][i][2:], "index": i, "implementation": S["impl"][i],
                              "model": S["model"][i], "cases": len(lst)})
-    R = run_plan_property("C09", tier, seed, lambda P, d: [], nt, "", extra_obligations=extra)
+    def e2e(R, S, repo_dir):
+        """end to end: exit code, diagnostic, output file untouched (fresh and with a previous output present)"""
+        from . import render as RD
+        extra(R, S, repo_dir)
+        cli = os.path.join(repo_dir, "kessoku")
+        want = {"dup": 3, "cycle": 3, "orphan": 2, "none": 2} if tier == "quick" else {"dup": 12, "cycle": 12, "orphan": 8, "none": 8}
+        picked = []
+        for i, (line, impl) in enumerate(zip(S["lines"], S["impl"])):
+            ret, provs = G.parse_decl(line[2:])
+            defects, supplied = PC.classify(ret, provs)
+            k = "none" if not defects else sorted(defects)[0]
+            if not defects and not supplied:
+                continue
+            if want.get(k, 0) > 0 and len(line) < 400:
+                want[k] -= 1
+                picked.append((i, line[2:], k))
+        M = RD.Module("c09_%d" % seed)
+        runs = 0
+        try:
+            for n, (i, line, kind) in enumerate(picked):
+                d = os.path.join(M.root, "c%d" % n)
+                os.makedirs(d)
+                src, mk, _ = RD.render_decl(n, line)
+                body = ["package c%d" % n, "", "import (", '\t"context"', '\t"e2e/rt"', '\t"github.com/mazrean/kessoku"', ")", "", "var _ context.Context", "var _ = rt.Enter", ""] + src
+                open(os.path.join(d, "k.go"), "w").write("\n".join(body) + "\n")
+                band = os.path.join(d, "k_band.go")
+                ret, provs = G.parse_decl(line)
+                dt = PC.defect_types(ret, provs)
+                for prior in ("fresh", "previous-output"):
+                    if os.path.exists(band):
+                        os.remove(band)
+                    prev = "// Code generated by kessoku. DO NOT EDIT.\n\npackage c%d\n\nfunc Previous() {}\n" % n
+                    if prior == "previous-output":
+                        open(band, "w").write(prev)
+                    rc, out = C.run([cli, "c%d/k.go" % n], cwd=M.root, extra_env=M.env(), timeout=300); runs += 1
+                    now = open(band).read() if os.path.exists(band) else None
+                    rp = {"kind": "input", "failing_input": line, "prior_output": prior, "defect": kind, "exit": rc, "stderr": out[-600:],
+                          "reproduce": "render the declaration (vlib/render.render_decl), run `kessoku k.go`%s" % (" with an existing k_band.go" if prior != "fresh" else "")}
+                    if kind == "none":
+                        nfunc = len(re.findall(r"^func ", now or "", re.M))
+                        if rc != 0 or now is None or nfunc != 1:
+                            R.violation("valid declaration: exit %d, %s functions emitted (want exit 0 and exactly one)  [%s]" % (rc, nfunc if now else "no file,", line), rp)
+                        continue
+                    if rc == 0:
+                        R.violation("declaration with a %s defect is accepted by the CLI (exit 0)  [%s]" % (kind, line), rp)
+                        continue
+                    names = ["D%dT%d" % (n, t) for t in sorted(dt[kind])]
+                    if names and not any(nm in out for nm in names):
+                        R.violation("the %s diagnostic names none of the types involved %s: %s  [%s]" % (kind, names, out.strip().splitlines()[-1][:200], line), rp)
+                    if prior == "fresh" and now is not None:
+                        R.violation("refused declaration (%s) but an output file was created  [%s]" % (kind, line), rp)
+                    if prior == "previous-output" and now != prev:
+                        R.violation("refused declaration (%s) but the existing output file was %s  [%s]" % (kind, "deleted" if now is None else "modified", line), rp)
+        finally:
+            M.close()
+        R.coverage["cli_runs_on_planted_defects"] = runs
+    import re
+    R = run_plan_property("C09", tier, seed, lambda P, d: [], nt, "", extra_obligations=e2e)
     R.assumptions = ["'exits non-zero and leaves the output file alone' is tied by the regenerated call order of processFile (Props/C09) and by the end-to-end stream"]
     return R.finish("cd lean && lake build KV.Props.C09 && lake env lean <audit of Props/C09 theorems>", TRUSTED)
